@@ -20,6 +20,7 @@ func VH_C15_verify() {
 
 	err := otrV3{}.verifyInstanceTags(c, sender, receiver)
 
+	vObserve("verify", err == nil, c.theirInstanceTag, c.ourInstanceTag)
 	rejected := err != nil
 	// O-1: a rejected message never changes the peer binding
 	vAssert("O1-reject-keeps-binding", vImplies(rejected, c.theirInstanceTag == theirs))
